@@ -283,6 +283,9 @@ func (g *Global) modSetOfCall(caller *ssa.Function, cc *ssa.CallCommon) *ModSet 
 		fn = v.Fn.(*ssa.Function)
 	}
 	if fn == nil {
+		if _, con := g.fieldFuncContract(cc.Value); con != nil && con.HasMod && !con.ModAll && len(con.Modifies) == 0 {
+			return ms // host callback assumed not to write module state (pure / modifies nothing)
+		}
 		ms.all = true
 		ms.why = "dynamic call in " + caller.String()
 		return ms
